@@ -125,6 +125,7 @@ fn observe(
     n_all: usize,
     y_slack: i64,
     relative: bool,
+    label_codes: bool,
     tree_pred: &dyn Fn(&Value) -> Result<Vec<f64>, String>,
     pred: Result<Vec<f64>, String>,
     pred_again: Result<Vec<f64>, String>,
@@ -183,7 +184,51 @@ fn observe(
             *re = e.map(|e| e - 8).unwrap_or(0);
         }
     }
+    // Classifier values of fitted forests are arbitrary float labels: they are recorded as
+    // order-preserving codes, the 1-based dense rank of the value among ALL finite values of
+    // this observation (training labels, member-tree predictions, forest predictions, OOB
+    // predictions), with numeric equality (-0.0 = 0.0, like the library's own unique()).
+    // Two values get the same code iff they are equal, however close they are.
+    let mut universe: Vec<f64> = Vec::new();
+    if label_codes && kind == "cls" {
+        universe.extend(y.iter().cloned());
+        for t in raw_tp.iter() {
+            if let Ok(v) = t {
+                universe.extend(v.iter().cloned());
+            }
+        }
+        if let Ok(v) = &pred {
+            universe.extend(v.iter().cloned());
+        }
+        if let Ok(Ok(v)) = &oob {
+            universe.extend(v.iter().cloned());
+        }
+        universe.retain(|v| v.is_finite());
+        universe.sort_by(|a, b| a.partial_cmp(b).unwrap());
+        universe.dedup();
+    }
+    let code = |x: f64| -> (bool, i64) {
+        if !x.is_finite() {
+            return (false, 0);
+        }
+        match universe.binary_search_by(|p| p.partial_cmp(&x).unwrap()) {
+            Ok(i) => (true, i as i64 + 1),
+            Err(_) => (false, 0),
+        }
+    };
     let proj_rows = |v: &[f64]| -> (bool, Vec<i64>, Vec<bool>) {
+        if kind == "cls" && label_codes {
+            let mut all = true;
+            let mut vals = Vec::with_capacity(v.len());
+            let mut fl = Vec::with_capacity(v.len());
+            for &x in v {
+                let (ok, q) = code(x);
+                all &= ok;
+                vals.push(q);
+                fl.push(ok);
+            }
+            return (all, vals, fl);
+        }
         if kind == "cls" {
             return proj_vec(kind, v);
         }
@@ -217,7 +262,7 @@ fn observe(
             }
         }
     }
-    let (y_ok, yq, _) = proj_vec(kind, y);
+    let (y_ok, yq, _) = if kind == "cls" && label_codes { proj_rows(y) } else { proj_vec(kind, y) };
     if !y_ok {
         eprintln!("generator produced a target outside the admitted range");
         std::process::exit(2);
@@ -291,6 +336,7 @@ fn observe_cls(
     xall: &[Vec<f64>],
     y: &[f64],
     via_trait: bool,
+    label_codes: bool,
 ) -> Observed {
     let dump = serde_json::to_value(f).expect("serde dump");
     let text = serde_json::to_string(f).expect("serde dump");
@@ -317,7 +363,7 @@ fn observe_cls(
     let pred = res_vec(guard(ask));
     let pred_again = res_vec(guard(ask));
     let oob = res_oob(guard(|| f.predict_oob(&xt)));
-    observe("cls", &dump, &text, n_trees, keep, y, xtr.len(), xall.len(), 0, false, &tree_pred, pred, pred_again, oob)
+    observe("cls", &dump, &text, n_trees, keep, y, xtr.len(), xall.len(), 0, false, label_codes, &tree_pred, pred, pred_again, oob)
 }
 
 fn observe_reg(
@@ -356,7 +402,7 @@ fn observe_reg(
     let oob = res_oob(guard(|| f.predict_oob(&xt)));
     // targets that are multiples of 2^-16 are recorded exactly; anything else is rounded
     let y_slack = if y.iter().all(|v| (v * FX).fract() == 0.0) { 0 } else { 1 };
-    observe("reg", &dump, &text, n_trees, keep, y, xtr.len(), xall.len(), y_slack, relative, &tree_pred, pred, pred_again, oob)
+    observe("reg", &dump, &text, n_trees, keep, y, xtr.len(), xall.len(), y_slack, relative, false, &tree_pred, pred, pred_again, oob)
 }
 
 // ---------------------------------------------------------------------------------------------
@@ -398,7 +444,11 @@ fn crit_of(c: usize) -> SplitCriterion {
 }
 
 /// status, digest, observation of one real fit
-fn fit_once(d: &Data, s: &Setting, seed: u64, via_trait: bool) -> (&'static str, String, String, Value) {
+/// `==` between forests: (this forest == itself, this forest == a second forest fitted with
+/// the same data, parameters and seed); observed for first fits only
+type EqObs = Option<(bool, bool)>;
+
+fn fit_once(d: &Data, s: &Setting, seed: u64, via_trait: bool) -> (&'static str, String, String, Value, EqObs) {
     let xm = mat(&d.x);
     let mut xall = d.x.clone();
     xall.extend(d.xq.iter().cloned());
@@ -426,11 +476,32 @@ fn fit_once(d: &Data, s: &Setting, seed: u64, via_trait: bool) -> (&'static str,
         };
         match guard(fit) {
             Ok(Ok(f)) => {
-                let o = observe_cls(&f, s.n_trees, s.keep, &d.x, &xall, &d.y, via_trait);
-                ("ok", o.digest, o.fdigest, o.obs)
+                let o = observe_cls(&f, s.n_trees, s.keep, &d.x, &xall, &d.y, via_trait, true);
+                let eq = if via_trait {
+                    None
+                } else {
+                    let p2 = RandomForestClassifierParameters {
+                        criterion: crit_of(s.crit),
+                        max_depth: s.max_depth,
+                        min_samples_leaf: s.msl,
+                        min_samples_split: s.mss,
+                        n_trees: s.n_trees as u16,
+                        m: s.m,
+                        keep_samples: s.keep,
+                        seed,
+                    };
+                    let again = guard(|| RandomForestClassifier::fit(&xm, &d.y, p2));
+                    let same = guard(|| f == f).unwrap_or(false);
+                    let twin = match again {
+                        Ok(Ok(f2)) => guard(|| f == f2).unwrap_or(false),
+                        _ => false,
+                    };
+                    Some((same, twin))
+                };
+                ("ok", o.digest, o.fdigest, o.obs, eq)
             }
-            Ok(Err(e)) => ("err", format!("err:{}", e), String::from("err"), json!({})),
-            Err(m) => ("panic", format!("panic:{}", m), String::from("panic"), json!({})),
+            Ok(Err(e)) => ("err", format!("err:{}", e), String::from("err"), json!({}), None),
+            Err(m) => ("panic", format!("panic:{}", m), String::from("panic"), json!({}), None),
         }
     } else {
         let p = RandomForestRegressorParameters {
@@ -456,10 +527,30 @@ fn fit_once(d: &Data, s: &Setting, seed: u64, via_trait: bool) -> (&'static str,
         match guard(fit) {
             Ok(Ok(f)) => {
                 let o = observe_reg(&f, s.n_trees, s.keep, &d.x, &xall, &d.y, d.relative, via_trait);
-                ("ok", o.digest, o.fdigest, o.obs)
+                let eq = if via_trait {
+                    None
+                } else {
+                    let p2 = RandomForestRegressorParameters {
+                        max_depth: s.max_depth,
+                        min_samples_leaf: s.msl,
+                        min_samples_split: s.mss,
+                        n_trees: s.n_trees,
+                        m: s.m,
+                        keep_samples: s.keep,
+                        seed,
+                    };
+                    let again = guard(|| RandomForestRegressor::fit(&xm, &d.y, p2));
+                    let same = guard(|| f == f).unwrap_or(false);
+                    let twin = match again {
+                        Ok(Ok(f2)) => guard(|| f == f2).unwrap_or(false),
+                        _ => false,
+                    };
+                    Some((same, twin))
+                };
+                ("ok", o.digest, o.fdigest, o.obs, eq)
             }
-            Ok(Err(e)) => ("err", format!("err:{}", e), String::from("err"), json!({})),
-            Err(m) => ("panic", format!("panic:{}", m), String::from("panic"), json!({})),
+            Ok(Err(e)) => ("err", format!("err:{}", e), String::from("err"), json!({}), None),
+            Err(m) => ("panic", format!("panic:{}", m), String::from("panic"), json!({}), None),
         }
     }
 }
@@ -508,11 +599,13 @@ fn emit_fit(out: &mut Out, run: i64, full: bool, d: &Data, s: &Setting, seed: u6
     let key = format!("{}#{}", base, seed);
     // first fits use the inherent fit/predict, later fits of the same key the api traits
     // (SupervisedEstimator::fit, Predictor::predict): both entry points must agree
-    let (status, digest, fdigest, obs) = fit_once(d, s, seed, !full);
+    let (status, digest, fdigest, obs, eq) = fit_once(d, s, seed, !full);
+    let (eq_self, eq_refit) = eq.unwrap_or((false, false));
     if full {
         let p = d.x[0].len();
         out.emit(json!({
             "run": run, "ev": "ForestFit", "key": key, "base": base, "digest": digest, "fdigest": fdigest, "status": status,
+            "eqSelf": eq_self, "eqRefit": eq_refit,
             "in": {"kind": s.kind, "n": d.x.len(), "p": p, "xDen": d.xden, "X": ints(&d.x, d.xden), "Xq": ints(&d.xq, d.xden),
                    "y": proj_vec(s.kind, &d.y).1,
                    "classSizes": class_sizes(s.kind, &d.y), "relative": d.relative, "family": d.family,
@@ -538,8 +631,15 @@ fn gen_data(r: &mut StdRng, id: usize, kind: &'static str, n: usize, p: usize, d
             perm.shuffle(r);
             let step = r.gen_range(1..=3) as f64;
             let off = r.gen_range(-20..=20) as f64;
+            // a third of the distinct columns are centred: 2*rank - (n-1), neighbours -1 / +1
+            // (n even) straddle zero, so a split between them has the threshold exactly 0.0
+            let centred = r.gen_bool(0.33);
             for i in 0..n {
-                x[i][j] = perm[i] as f64 * step + off;
+                x[i][j] = if centred {
+                    (2.0 * perm[i] as f64 - (n as f64 - 1.0)) * step
+                } else {
+                    perm[i] as f64 * step + off
+                };
             }
         } else if p > 1 && r.gen_bool(0.1) {
             let c = r.gen_range(-3..=3) as f64;
@@ -547,9 +647,20 @@ fn gen_data(r: &mut StdRng, id: usize, kind: &'static str, n: usize, p: usize, d
                 row[j] = c;
             }
         } else {
+            // small levels: 0..vmax, or levels symmetric about zero (+-1 indicator coding,
+            // centred levels {-2,-1,1,2}, {-3..3 without 0})
             let vmax = r.gen_range(1..=6);
+            let sym: Option<&[f64]> = match r.gen_range(0..8) {
+                0 => Some(&[-1.0, 1.0]),
+                1 => Some(&[-2.0, -1.0, 1.0, 2.0]),
+                2 => Some(&[-3.0, -2.0, -1.0, 1.0, 2.0, 3.0]),
+                _ => None,
+            };
             for row in x.iter_mut() {
-                row[j] = r.gen_range(0..=vmax) as f64;
+                row[j] = match sym {
+                    Some(levels) => levels[r.gen_range(0..levels.len())],
+                    None => r.gen_range(0..=vmax) as f64,
+                };
             }
         }
     }
@@ -651,6 +762,41 @@ fn gen_data(r: &mut StdRng, id: usize, kind: &'static str, n: usize, p: usize, d
         }
     }
     Data { id, xden, x, xq, y, relative: false, family: "random" }
+}
+
+/// Replace the (integer) label values of a classification set by one of the float label
+/// sets below, keeping which rows belong together: labels closer than machine epsilon,
+/// non-integer labels between integer extremes, labels that collide under truncation,
+/// adjacent floats, huge and tiny magnitudes, and a class written as both -0.0 and 0.0.
+fn float_labels(r: &mut StdRng, d: &mut Data) {
+    let mut old: Vec<f64> = d.y.clone();
+    old.sort_by(|a, b| a.partial_cmp(b).unwrap());
+    old.dedup();
+    let k = old.len();
+    let sets: Vec<Vec<f64>> = vec![
+        vec![0.0, 1e-17, 2e-17, 3e-17],
+        vec![1.0, 1.0 + f64::EPSILON, 1.0 + 2.0 * f64::EPSILON, 1.0 - f64::EPSILON / 2.0],
+        (0..4).map(|i| (i as f64 + 3.0) * (2.0f64).powi(-60)).collect(),
+        vec![0.0, 0.5, 2.0, 1.25],
+        vec![0.25, 0.75, -0.25, -0.75],
+        vec![-0.5, 0.5, 1.5, -1.5],
+        vec![1e300, -1e300, 1e-300, -1e-300],
+        vec![0.0, 1.0, -1.0, 5e-324],
+    ];
+    let which = r.gen_range(0..sets.len());
+    let mut set = sets[which].clone();
+    set.truncate(k.max(2));
+    set.shuffle(r);
+    let zero_class = which == 7;
+    for v in d.y.iter_mut() {
+        let c = old.iter().position(|o| o == v).unwrap();
+        let mut nv = set[c % set.len()];
+        // the class 0.0 is written as -0.0 in some rows (equal values, different bits)
+        if zero_class && nv == 0.0 && r.gen_bool(0.5) {
+            nv = -0.0;
+        }
+        *v = nv;
+    }
 }
 
 /// Systematic family: a classification set of exactly `n` rows whose classes have exactly the
@@ -811,6 +957,10 @@ fn gen_fits(path: &str) {
         let p = r.gen_range(1..=6);
         let d = gen_data(&mut r, c + 1, kind, n, p, distinct);
         let many_trees = big && r.gen_bool(0.5);
+        let mut d = d;
+        if kind == "cls" && r.gen_bool(0.15) {
+            float_labels(&mut r, &mut d);
+        }
         let s = gen_setting(&mut r, kind, p, unlimited, many_trees);
         let s1 = pick_seed(&mut r);
         let mut s2 = pick_seed(&mut r);
@@ -880,6 +1030,28 @@ fn gen_fits(path: &str) {
             let s1 = pick_seed(&mut r);
             emit_quad(&mut out, run, &d, &s, s1, s1.wrapping_add(1 + rep as u64));
         }
+    }
+    // float label sets on class-size profiles with small classes, samples kept
+    for rep in 0..(if th { 160 } else { 48 }) {
+        run += 1;
+        next_id += 1;
+        let n = r.gen_range(5..=60usize);
+        let sizes: Vec<usize> = match rep % 4 {
+            0 => vec![1, n - 1],
+            1 => vec![1, 2, n - 3],
+            2 => vec![2, 2, n - 4],
+            _ => vec![1, 1, 1, n - 3],
+        };
+        let distinct = r.gen_bool(0.5);
+        let mut d = gen_profile_data(&mut r, next_id, n, &sizes, distinct);
+        float_labels(&mut r, &mut d);
+        d.family = "labels";
+        let p = d.x[0].len();
+        let mut s = gen_setting(&mut r, "cls", p, distinct, false);
+        s.n_trees = r.gen_range(1..=4);
+        s.keep = true;
+        let s1 = pick_seed(&mut r);
+        emit_quad(&mut out, run, &d, &s, s1, s1.wrapping_add(11));
     }
     // deep member trees (chains far deeper than 64 levels), default limits
     let deep_sizes: Vec<usize> = if th { vec![100, 110, 120, 140, 160, 200, 260] } else { vec![110, 120, 160, 200] };
@@ -1038,7 +1210,7 @@ fn assemble(run: i64, c: &Value, ev: &str) -> Value {
                     "min_samples_split": 2, "n_trees": t_n, "m": null, "keep_samples": keep, "seed": 0},
                 "trees": trees, "classes": classes_f, "samples": samples});
             match serde_json::from_value::<RandomForestClassifier<f64>>(fj) {
-                Ok(f) => ("ok", observe_cls(&f, t_n, keep, &x, &x, &y, false).obs),
+                Ok(f) => ("ok", observe_cls(&f, t_n, keep, &x, &x, &y, false, false).obs),
                 Err(e) => {
                     eprintln!("cannot assemble a classifier forest: {}", e);
                     std::process::exit(2);
